@@ -241,6 +241,77 @@ func longLine(r *rand.Rand, maxLen int) []byte {
 	return b
 }
 
+// hostileRunes are byte sequences that utf8.DecodeRune reports as
+// (RuneError, 1): plainly invalid bytes, truncated sequences followed by ASCII,
+// a surrogate and an overlong form - indistinguishable, to careless code, from
+// a rune that has merely not been buffered completely yet - plus, as controls,
+// valid multi-byte runes including U+FFFD itself.
+var hostileRunes = []string{"\xff", "\xc3(", "\x80", "\xe2\x80x", "\xf0\x9f", "\xc3", "\xe2", "\xed\xa0\x80", "\xc0\xaf", "\xfe", "\ufffd", "é", "\u2003"}
+
+var tailLines = []string{"a line of plain text\n", "a line of plain text\n", "a line of plain text\n", "some *bold* and _emph_ words\n", "> a quoted line\n", "text ~s~ `p` x\n", "x\n"}
+
+// hostileHead places a hostile byte sequence exactly where the decoder looks
+// at "the next rune": after a block quote prefix (any depth), after a span
+// directive (opening and closing), and at both fence boundaries.
+func hostileHead(r *rand.Rand) (head, where string) {
+	h := pick(r, hostileRunes)
+	d := pick(r, directives)
+	switch r.Intn(8) {
+	case 0, 1, 2:
+		return quotePrefix(r, 1+r.Intn(3)) + h + "quoted\n", "quote-prefix"
+	case 3:
+		return ">" + h + "(\n", "quote-prefix"
+	case 4:
+		return d + h + "x" + d + " y\n", "span-start"
+	case 5:
+		return "a " + d + "b" + d + h + " c " + d + h + "\n", "span-end"
+	case 6:
+		return "```" + h + "\nbody\n```" + h + "\n```\nafter\n", "fence"
+	default:
+		return quotePrefix(r, 1) + "```" + h + "\n" + quotePrefix(r, 1) + h + "\n", "fence"
+	}
+}
+
+// tailDoc builds a document of short, non-blank lines whose total size exceeds
+// bufio's 64 KiB token limit: an optional preamble, a head (a hostile-rune
+// construct, or a small document from the other generators) and more than
+// 64 KiB of short lines after it.  A split function that keeps asking for more
+// data at some construct of the head shows up here as bufio.ErrTooLong although
+// no line is long.
+func tailDoc(r *rand.Rand) ([]byte, string) {
+	var b []byte
+	for i, n := 0, r.Intn(3); i < n; i++ {
+		b = append(b, inline(r, 0)...)
+		b = append(b, "x\n"...)
+	}
+	class := "tail-64k-generic"
+	if r.Intn(3) > 0 {
+		head, where := hostileHead(r)
+		b = append(b, head...)
+		class = "tail-64k-hostile-" + where
+	} else {
+		switch r.Intn(3) {
+		case 0:
+			b = append(b, soup(r, r.Intn(60))...)
+		case 1:
+			b = append(b, structured(r)...)
+		default:
+			b = append(b, mutate(r, structured(r))...)
+		}
+		if r.Intn(4) > 0 {
+			b = append(b, "x\n"...)
+		}
+	}
+	want := len(b) + 64<<10 + 1 + r.Intn(8<<10)
+	for len(b) < want {
+		b = append(b, pick(r, tailLines)...)
+	}
+	if r.Intn(2) == 0 {
+		b = b[:len(b)-1] // unterminated last line
+	}
+	return b, class
+}
+
 // genDoc picks a document for one case.
 func genDoc(r *rand.Rand) (doc []byte, class string) {
 	switch x := r.Intn(100); {
@@ -252,8 +323,10 @@ func genDoc(r *rand.Rand) (doc []byte, class string) {
 		return soup(r, 60+r.Intn(340)), "soup-long"
 	case x < 70:
 		return structured(r), "structured"
-	case x < 97:
+	case x < 94:
 		return mutate(r, structured(r)), "mutated"
+	case x < 97:
+		return tailDoc(r)
 	case x < 98:
 		return soup(r, 4000+r.Intn(300)), "straddle-4096"
 	default:
